@@ -143,7 +143,7 @@ def run_with_fault(cfg, fault, procs=1, mp=False):
 
 def run(ctx):
     from fast_ticc import front_end
-    ctx.proof_layer(allowed_axioms=(), coq_deps=["Corr/RunMainLoop"], gen=["main_loop", "front_single", "front_joint"])
+    ctx.proof_layer(allowed_axioms=(), coq_deps=["Corr/RunMainLoop"], gen=["main_loop", "front_single", "front_joint", "main_loop_full"])
     core.note_drift(ctx, ANCHORS)
     cov = core.LineCoverage()
     replay_lits, meta = [], []
